@@ -110,6 +110,88 @@ AbsExpect(args) ==
   IF Len(args) = 1 /\ args[1].t = "num" THEN EVal(NumQ(QAbs(QOf(args[1])))) ELSE EAny
 
 (***************************************************************************)
+(* C18  lookup                                                             *)
+(***************************************************************************)
+EAlts(es) == [k |-> "alts", es |-> es]       \* any one of these expectations
+
+IsIntV(v) == v.t = "num" /\ v.d = 1
+
+ChooseExpect(args) ==
+  IF Len(args) < 2 \/ ~IsIntV(args[1]) THEN EAny
+  ELSE LET i == args[1].n IN
+       IF i >= 1 /\ i <= Len(args) - 1 THEN OfV(args[i + 1]) ELSE EAnyErr
+
+Is2D(a) == IsArr(a) /\ a.a # <<>> /\ \A i \in 1..Len(a.a) : IsArr(a.a[i])
+Is1D(a) == IsArr(a) /\ a.a # <<>> /\ \A i \in 1..Len(a.a) : ~IsArr(a.a[i])
+Rect(a) == \A i \in 1..Len(a.a) : Len(a.a[i].a) = Len(a.a[1].a) /\ Len(a.a[1].a) >= 1
+Column(a, c) == Arr([i \in 1..Len(a.a) |-> a.a[i].a[c]])
+
+(* r, c: index values or Blank for an omitted one *)
+IndexExpect(args) ==
+  IF Len(args) < 2 \/ Len(args) > 3 THEN EAny
+  ELSE LET a == args[1]
+           r == args[2]
+           c == IF Len(args) = 3 THEN args[3] ELSE Blank
+       IN IF ~(IsIntV(r) \/ IsBlank(r)) \/ ~(IsIntV(c) \/ IsBlank(c)) THEN EAny
+          ELSE IF Is1D(a)
+          THEN IF ~IsBlank(c) THEN EAny            \* orientation of a one-dimensional array is not fixed
+               ELSE IF IsBlank(r) THEN EAny
+               ELSE IF r.n >= 1 /\ r.n <= Len(a.a) THEN OfV(a.a[r.n])
+               ELSE IF r.n = 0 THEN EAlts(<<EAnyErr, EVal(a)>>)      \* 0: an error or the whole array, never one element
+               ELSE EAnyErr
+          ELSE IF Is2D(a) /\ Rect(a)
+          THEN LET nr == Len(a.a)
+                   nc == Len(a.a[1].a)
+                   rz == IsBlank(r) \/ r.n = 0
+                   cz == IsBlank(c) \/ c.n = 0
+               IN IF rz /\ cz THEN EAny
+                  ELSE IF ~rz /\ (r.n < 1 \/ r.n > nr) THEN EAnyErr
+                  ELSE IF ~cz /\ (c.n < 1 \/ c.n > nc) THEN EAnyErr
+                  ELSE IF cz THEN OfV(a.a[r.n])                       \* whole row
+                  ELSE IF rz THEN OfV(Column(a, c.n))                  \* whole column
+                  ELSE OfV(a.a[r.n].a[c.n])
+          ELSE EAny
+
+(* wildcard match of pattern p against text s (code point sequences, already lower-cased) *)
+RECURSIVE Wild(_, _)
+Wild(p, s) ==
+  IF p = <<>> THEN s = <<>>
+  ELSE IF p[1] = 42 THEN Wild(Tail(p), s) \/ (s # <<>> /\ Wild(p, Tail(s)))
+  ELSE IF s = <<>> THEN FALSE
+  ELSE (p[1] = 63 \/ p[1] = s[1]) /\ Wild(Tail(p), Tail(s))
+
+NumItems(a) == \A i \in 1..Len(a.a) : a.a[i].t = "num"
+TxtItems(a) == \A i \in 1..Len(a.a) : a.a[i].t = "txt"
+Ascending(a) == \A i \in 1..(Len(a.a) - 1) : QLe(QOf(a.a[i]), QOf(a.a[i + 1]))
+Descending(a) == \A i \in 1..(Len(a.a) - 1) : QLe(QOf(a.a[i + 1]), QOf(a.a[i]))
+NoBracket(s) == \A i \in 1..Len(s) : s[i] \notin {91, 93}
+SmallNums(a) == \A i \in 1..Len(a.a) : Small(QOf(a.a[i]))
+
+MatchExpect(args) ==
+  IF Len(args) # 3 \/ ~Is1D(args[2]) \/ ~IsIntV(args[3]) THEN EAny
+  ELSE LET x == args[1]
+           a == args[2]
+           t == args[3].n
+           n == Len(a.a)
+       IN IF t = 0
+          THEN IF x.t = "num" /\ NumItems(a) /\ Small(QOf(x)) /\ SmallNums(a)
+               THEN LET hits == {i \in 1..n : QEq(QOf(a.a[i]), QOf(x))}
+                    IN IF hits = {} THEN EVal(Err("#N/A")) ELSE EVal(IntV(CHOOSE i \in hits : \A j \in hits : i <= j))
+               ELSE IF x.t = "txt" /\ TxtItems(a) /\ NoBracket(x.s)
+               THEN LET hits == {i \in 1..n : Wild(LowerS(x.s), LowerS(a.a[i].s))}
+                    IN IF hits = {} THEN EVal(Err("#N/A")) ELSE EVal(IntV(CHOOSE i \in hits : \A j \in hits : i <= j))
+               ELSE EAny
+          ELSE IF t \in {1, -1} /\ x.t = "num" /\ NumItems(a) /\ Small(QOf(x)) /\ SmallNums(a)
+                  /\ (IF t = 1 THEN Ascending(a) ELSE Descending(a))
+          THEN LET ok == {i \in 1..n : IF t = 1 THEN QLe(QOf(a.a[i]), QOf(x)) ELSE QLe(QOf(x), QOf(a.a[i]))}
+               IN IF ok = {} THEN EVal(Err("#N/A"))
+                  ELSE LET best == CHOOSE i \in ok : \A j \in ok :
+                                      IF t = 1 THEN QLe(QOf(a.a[j]), QOf(a.a[i])) ELSE QLe(QOf(a.a[i]), QOf(a.a[j]))
+                           same == {i \in ok : QEq(QOf(a.a[i]), QOf(a.a[best]))}
+                       IN [k |-> "posin", ps |-> same]                    \* any position holding that item
+          ELSE EAny
+
+(***************************************************************************)
 (* dispatcher                                                              *)
 (***************************************************************************)
 BuiltinExpect(f, args) ==
@@ -133,11 +215,17 @@ BuiltinExpect(f, args) ==
     [] f = "FALSE" -> IF args = <<>> THEN EVal(Bool(FALSE)) ELSE EAny
     [] f = "SUM" -> SumExpect(args)
     [] f = "ABS" -> AbsExpect(args)
+    [] f = "CHOOSE" -> ChooseExpect(args)
+    [] f = "INDEX" -> IndexExpect(args)
+    [] f = "MATCH" -> MatchExpect(args)
     [] OTHER -> EAny
 
 (* Matches for the expectation kinds introduced here                       *)
+RECURSIVE MatchesF(_, _)
 MatchesF(e, y) ==
-  CASE e.k = "truth" -> (y.t = "bool" /\ y.b = e.b) \/ (y.t = "num" /\ y.d = 1 /\ y.n = (IF e.b THEN 1 ELSE 0))
+  CASE e.k = "alts" -> \E i \in 1..Len(e.es) : MatchesF(e.es[i], y)
+    [] e.k = "posin" -> y.t = "num" /\ y.d = 1 /\ y.n \in e.ps
+    [] e.k = "truth" -> (y.t = "bool" /\ y.b = e.b) \/ (y.t = "num" /\ y.d = 1 /\ y.n = (IF e.b THEN 1 ELSE 0))
     [] e.k = "anynum" -> y.t = "num"
     [] OTHER -> Matches(e, y)
 
